@@ -26,41 +26,49 @@ REG = {
         "schedule enumeration with preemption bounding over real threads (engine C); linearizability oracle = the implementation "
         "run sequentially (every harness call guarded) in every call order and store-creation order, plus observer-side ledger "
         "clauses",
-        "263 harnesses in quick: 13 curated collisions (incl. two real BioAgent.express calls on one store, both lock-rank orders, "
-        "under-funded three-store rings) and all unordered pairs of operation kinds from start states reached through the public "
-        "API - P (10 kinds), G (14: three currencies, debt, silent=False, recording callback, getters), D (starving/dormant, "
-        "priorities), X (raising callback), E (callback raising 10 builtin exception classes, with / without message), I "
-        "(apply_debt_interest, advisory), K (each thread constructs its store as a scheduled step, then transfers). Callback "
-        "families hold every transfer || transfer pair under both creation orders of the stores, with amounts crossing a "
-        "metabolic-state threshold. Thorough adds more curated harnesses, funded rings, a K ring, 35 three-thread multisets, "
-        "bytecode granularity on 4 harnesses. Every line of metabolism.py and every lock acquisition (also the second of one source "
-        "line) is a scheduling point; every schedule with <= 2 preemptions (G, E: 1) in quick, <= 3 (G, E, rings, triples: 2) in "
-        "thorough runs to completion. Oracle: the outcome (returns or raised class, final balances/debt/state, notifications) is "
-        "that of some sequential order; balances never negative, debt within its limit, spends <= available wealth, no deadlock, "
-        "livelock or escaping exception.",
-        "CoopLock has threading.Lock/RLock semantics; atomicity of a single bytecode under the GIL is trusted; free-threaded builds "
-        "out of scope; the regeneration thread is modelled as an explicit regenerate() thread. A reference or setup call that hangs "
-        "or fails sequentially is a violation of its own. Counted, not asserted: intermediate getter reads, apply_debt_interest "
-        "outcomes. A split-only outcome is keyed nonatomic-transfer (recorded as fixed, so it fails the run)",
+        "283 harnesses in quick: 13 curated collisions (incl. two real BioAgent.express calls on one store, both lock-rank orders, "
+        "three-store rings) and all unordered pairs of operation kinds from start states reached through the public API - P (10 "
+        "kinds), G (14: three currencies, debt, callback, getters), D (starving/dormant, priorities), X "
+        "(raising callback), E (callback raising 10 builtin exception classes), I (apply_debt_interest, advisory), K (each thread "
+        "constructs its store as a scheduled step, then transfers), W (two transfers between two stores next to a third thread "
+        "working on one of them); callback families hold every transfer || transfer pair under both creation orders of the stores, "
+        "amounts crossing a metabolic-state threshold. Every harness exists warm and @fresh (its "
+        "stores are the first objects created after a fresh import of the library; every schedule and reference order runs in a "
+        "fork of a just re-imported server process): 16 fresh variants in quick (P transfer pairs, S5 / S5r, K, opposite W), every "
+        "two-store harness in thorough, which also adds funded rings, a K ring, 35 three-thread multisets, bytecode granularity on "
+        "4 harnesses. Every line of metabolism.py and every lock acquisition is a scheduling point; every schedule with <= 2 "
+        "preemptions (G, E, W: 1) in quick, <= 3 (G, E, three-thread: 2; fresh one lower) in thorough runs to completion. Oracle: "
+        "the outcome (returns, final state, notifications) is that of some sequential order; balances never negative, debt within "
+        "its limit, spends <= available wealth, no deadlock, livelock or escaping exception.",
+        "CoopLock has threading.Lock/RLock semantics; atomicity of a single bytecode under the GIL is trusted; the regeneration "
+        "thread is modelled as an explicit regenerate() thread; fresh state = operon_ai* purged from sys.modules and re-imported "
+        "(environment, files not reset). A reference or setup call that hangs or fails sequentially is a violation of its own. "
+        "Counted, not asserted: intermediate getter reads, apply_debt_interest outcomes. A split-only outcome is keyed "
+        "nonatomic-transfer (recorded as fixed, so it fails the run)",
     ),
     "C07": (
         "bounded-exhaustive enumeration of gate logic x answer pair x options x prompts on the real run() (engine D) + "
-        "explicit-state BFS to fixpoint over cache histories under a virtual clock (engine A)",
-        "All 6 gate logics x 20x20 executor/assessor answers (the 7 of the property, 6 more unknown spellings, 4 more exception "
-        "kinds, 3 non-verdict returns) x 24 option tuples (cache on/off, TTL {300,0,1e12}, breaker off/(5,60 s)/(1,0 s), silent off "
-        "+ callbacks + timeout_seconds=0) x 8 prompts (quick: non-base tuples on one prompt); three run() calls per cell (answer; "
-        "opposite verdicts; after the TTL). Self-extending unknown-verdict alphabet: every UPPER_CASE string constant of the "
-        "library source, harvested with ast (22 words such as SUCCESS, BLOCKED, CIRCUIT_OPEN; 76 spellings by case), as executor "
-        "and as assessor verdict against every base verdict and itself under all 6 logics. Further families: 9x9 payload/confidence "
-        "shapes; ~30 near-miss variants (case, whitespace, Unicode forms, invisible characters) of 4 prompts on one caching loop; "
-        "base cells after history prefixes + clock advance / clear_cache / reset_circuit_breaker. Engine A: run/advance/clear "
-        "histories over two prompts differing by a trailing space, to fixpoint. Oracle (one-directional): not blocked => reference "
-        "table from the statement; token => assessor PERMIT, hash is a sha256 prefix of exactly this prompt, issuer = assessor; a "
-        "reply given without consulting an agent equals the original reply of the same prompt.",
+        "explicit-state BFS to fixpoint over cache histories under a virtual clock (engine A) + schedule enumeration with "
+        "preemption bounding over two real threads on one loop (engine C)",
+        "All 6 gate logics x 20x20 executor/assessor answers (the 7 of the property + 13 unknown spellings, exception kinds, "
+        "non-verdict returns) x 24 option tuples (cache, TTL, breaker, silent off + callbacks) x 8 prompts (quick: non-base "
+        "tuples on one prompt); three run() calls per cell (answer; opposite verdicts; after the TTL). Self-extending "
+        "unknown-verdict alphabet: every UPPER_CASE string constant of the library source, harvested with ast (22 words, 76 "
+        "spellings), as executor and assessor verdict under all 6 logics. Further families: 9x9 payload/confidence shapes; ~30 "
+        "near-miss variants of 4 prompts on one caching loop; base cells after history prefixes; rewriting agents - stubs in "
+        "either slot or both rewrite the shared Signal in place (11 rewrites of "
+        "text and fields, earlier Signals rewritten later, one re-used answer object), 6 calls per cell incl. a cache hit and the "
+        "planted request; re-entrant - an agent or callback of a request in flight submits a new / earlier / the same request "
+        "through the same loop (14112 cells in quick). Engine C: 2 threads x 1 request each on one loop, every schedule with <= 2 "
+        "preemptions (quick: 1 except AND), then sequential repeats. Engine A: run/advance/clear histories over two prompts "
+        "differing by a trailing space, to fixpoint. Oracle (one-directional), per request as the caller passed it to run(): not "
+        "blocked => reference table from the statement; token => assessor PERMIT, hash is a sha256 prefix of exactly this prompt, "
+        "issuer = assessor; a reply given without consulting an agent equals an original reply of the same prompt.",
         "stub agents stand in for BioAgent: every verdict pair witnessed on the built-in agents is re-run with stubs and must "
-        "agree; MAJORITY over two agents is read as 'both permit'; a harvested word never counts as an approval; a blocked "
-        "token-less reply without agent consultation while the breaker is enabled counts as a breaker refusal (C08); truncated-md5 "
-        "cache-key collisions not explorable; re-evaluation of expired entries is not asserted",
+        "agree; MAJORITY over two agents is read as 'both permit'; overlapping requests: per-request clauses only (no "
+        "linearizability, counters, thread return), a cached reply may repeat an overlapping "
+        "original; a token-less blocked reply without agent consultation while the breaker is enabled is a breaker refusal (C08); "
+        "md5 cache-key collisions, re-evaluation of expired entries not asserted",
     ),
     "C08": (
         "explicit-state BFS to fixpoint over request-outcome / cache-repeat / clock-advance / reset histories under a virtual "
@@ -100,7 +108,7 @@ REG = {
     ),
     "C12": (
         "bounded-exhaustive enumeration of templates x contexts against an independent single-pass reference renderer (engine D), "
-        "opacity oracle over payload slots, instance-isolation family with sibling instances",
+        "opacity oracle over payload slots, instance-isolation family with sibling instances, adjacent-fragments family",
         "Templates are sequences of segment kinds of the documented grammar at three alphabet levels (full 88 kinds, std 30, core "
         "12): quick uses full for <= 1 segment, std for 2, core for 3; thorough full for <= 2, std for 3, core for 4; contexts v "
         "over 13 values x w; strict and non-strict. Phase 1: output equals the reference, needed unbound variables are warned "
@@ -108,14 +116,16 @@ REG = {
         "field, second variable, default literal, literal text, custom-filter result) carries each of 13 payloads (every construct, "
         "a half-open brace, private-use characters) and the output must contain it verbatim; phase 2u the same with the payload's "
         "names unbound. Shadow family (loop-special names as dict keys / outer variables), api family (translate(mRNA), by name "
-        "after re-registration, second instances) and isolation family: three judged instances, each built between siblings that "
-        "got other filter / template names through every instance-level extension point and re-define the built-in filter names; "
-        "templates use every sibling-only name as default word, include target and variable; reference = the judged instance's own "
-        "tables.",
-        "blocks are non-nested and block bodies hold only text and plain variables (the quantifier's grammar); text emitted for an "
-        "unbound plain/filtered variable, each over a non-list, raising custom filters, a built-in filter name re-defined on the "
-        "judged instance and direct writes to .filters / .templates are not judged; reinterpreted:default-literal:include is the "
-        "one known finding, any other channel x construct pair is a violation",
+        "after re-registration, second instances), isolation family (three judged instances, each built between siblings that got "
+        "other filter / template names through every instance-level extension point; reference = the judged instance's own tables) "
+        "and adj family: every split of each of 9 construct strings into 2-3 fragments placed, in order, into adjacent emission "
+        "sites of 11 kinds (121 ordered site pairs, consecutive loop items, inside includes and block bodies; 86575 cases in "
+        "quick) - the output must be the one left-to-right expansion with the fragments verbatim, warnings compared too.",
+        "blocks are non-nested and block bodies hold only text and plain variables (the quantifier's grammar); literal template "
+        "text with unmatched delimiters ('{{' / '}}' between sites) is outside the quantifier and not judged (the evidence "
+        "assumptions document what the current tree does with it); text emitted for an unbound variable, each over a non-list, "
+        "raising custom filters, direct writes to .filters / .templates are not judged; reinterpreted:default-literal:include is "
+        "the one known finding",
     ),
     "C01": (
         "bounded-exhaustive input enumeration on the real Mitochondria (engine D): forbidden-AST probes x contexts x pathways x "
@@ -155,23 +165,27 @@ REG = {
         "builtins.pow; sign of zero not compared; the reduction is validated in depth-1 contexts, not proven for deeper layers",
     ),
     "C03": (
-        "explicit-state BFS to fixpoint over registration / call histories (engine A) + choice-point search over a scripted LLM "
-        "provider (engine B) + flat exhaustive family over options, declaration forms and history prefixes (engine D)",
+        "explicit-state BFS to fixpoint over registration / call histories and a second BFS over registry key / tool-object identity "
+        "(engine A) + choice-point search over a scripted LLM provider (engine B) + flat exhaustive family over options, "
+        "declaration forms and history prefixes (engine D)",
         "Allowed sets {None, {}, {NET}, {NET,READ_FS}} x 13 declaration styles x tools t0,t1 (thorough t2). Engine A: engulf / "
         "register / re-register, metabolize over text shapes x 5 pathways, execute_tool_call and scripted LLM loops in every "
         "reachable canonical state (depth bound 4, thorough 5; fixpoint reached); the key is a name-free recursive fingerprint of "
-        "the engine instance minus the activity statistics, located by behaviour (numeric fields that tool-less requests change). "
-        "Engine B: every provider answer sequence (stop / t0 / t1 / unknown / two tools per round) after every registration prefix, "
-        "<= 3 deviations in quick, unbounded in thorough. Engine D: constructor options (silent, timeout_seconds, max_ros, "
-        "allowed-set container, tools=) x up to 40 declaration forms x every entry point incl. digest_glucose, and histories "
-        "'declare A, prefix (other calls, introspection, repair, another engine sharing the name or tool object), re-register as B, "
-        "judged request' replayed without state merging (quick: one option off its default at a time). Oracle: a tool whose "
+        "the engine instance minus the activity statistics, located by behaviour. Identity model (second BFS, <= 3 binding "
+        "operations per history, thorough 4): relabel a bound object, engulf it again (one object under two keys), redeclare by a "
+        "new container / in place / through the other attribute, write tools[k] directly, fresh objects whose name and declaration "
+        "are properties; one request per entry point and key in every state, judged against the object bound to that key and its "
+        "own body recorder. Engine B: every provider answer sequence after every "
+        "registration prefix, <= 3 deviations in quick, unbounded in thorough. Engine D: constructor options x up to 40 declaration "
+        "forms x every entry point incl. digest_glucose, and histories 'declare A, prefix (other calls, introspection, repair, "
+        "another engine sharing the name or tool object), re-register as B, judged request' replayed unmerged. Oracle: a tool whose "
         "declared requirement is not a subset of the allowed set never has its body counter move - also a replaced tool object - "
         "and the request is reported as a failure.",
-        "max_ros=1e9 so the ROS latch never engages; hidden state outside vars(engine) is not in engine A's key (validate_canon "
-        "samples it, engine D replays unmerged); not modelled or asserted: a tool declaring different requirements in its two "
-        "attributes, in-place change of a declaration or of the allowed set after registration, direct writes to the public tools "
-        "dict; allowed tools actually running is a non-vacuity outcome, not a verdict",
+        "max_ros=1e9 so the ROS latch never engages; hidden state outside vars(engine) is not in engine A's key (engine D replays "
+        "unmerged); 'a registered tool' = the object bound to the requested key of the public "
+        "registry, judged by what it declares when the request is made; not modelled: different requirements in a tool's two "
+        "attributes, changing the allowed set after construction, removing keys from the tools dict; allowed tools actually running "
+        "is a non-vacuity outcome, not a verdict",
     ),
     "C09": (
         "explicit-state BFS over lifecycle histories on the real Telomere under a virtual clock, with a scheduler-aware lock that "
@@ -195,19 +209,24 @@ REG = {
     "C11": (
         "bounded-exhaustive enumeration of schemas x instances x corruption-operator sequences x strategy orders x {fold, "
         "fold_enhanced} against json.loads / pydantic model_validate (engine D)",
-        "10 schemas (typed / optional / defaulted / nested, aliased + constrained + extra=forbid with odd validator exceptions, "
-        "recursive, all-defaults) x instances over hazard-string alphabets x every sequence of <= 2 (thorough 3) corruption operators; "
-        "each raw text is folded by both entry points under the default order, the empty list, all 64 non-empty ordered strategy "
-        "subsets and 16 orders with a repeated strategy (longest sequences: a reduced order set, justified by a checked order-reduction "
-        "prediction). Plus degenerate raw texts, an escape-hazard x repair-target string product, three non-default validator "
-        "configurations and repeats of the default fold after other orders / a twin schema / on a second object. Oracle: valid => "
-        "schema instance that re-validates; invalid => no structure + non-empty error_trace; clean JSON with STRICT first => STRICT, "
-        "1.0, json.loads values; fold and fold_enhanced agree; confidence 1.0 only for STRICT (decided from the calls); nothing "
-        "raises; provenance per strategy; REPAIR of a purely syntactic corruption equals the original data; repeats equal the first "
-        "answer.",
-        "json.loads and pydantic are the trusted reference; provenance search is brute force over JSON objects starting at each '{' "
-        "(all schemas are object schemas); REPAIR provenance is judged only for purely syntactic corruptions of known data; the empty "
-        "strategy list gets only the order-independent clauses; quick uses a reduced hazard alphabet",
+        "11 schemas (typed / optional / defaulted / nested, aliased + constrained + extra=forbid with odd validator exceptions, "
+        "recursive, all-defaults, Memo, Ledger) x instances over hazard-string alphabets x every sequence of <= 2 (thorough 3) "
+        "corruption operators; each raw text is folded by both entry points under the default order, the empty list, all 64 "
+        "non-empty ordered strategy subsets and 16 orders with a repeated strategy (82 orders; longest sequences: a reduced order "
+        "set, justified by a checked order-reduction prediction). Memo: escape-hazard strings (backslash runs, quotes before "
+        "structural characters, the zero-length literal) x repair-target strings in both orders as neighbouring fields and list "
+        "elements. Ledger: one field per documented coercion holding a boundary literal on which a lossy conversion differs from "
+        "the exact one (quoted and bare +-(2**53+1), 2**64+1, '42.7', '1e3', '007', '1_000', 'nan', 'inf', 400-digit strings, "
+        "17-digit reprs; 157 instances in quick) x a second field that forces the deciding strategy. Plus degenerate raw texts, "
+        "three non-default validator configurations and repeats of the default fold after other orders / a twin schema / on a "
+        "second object. Oracle: valid => schema instance that re-validates; invalid => no structure + non-empty error_trace; clean "
+        "JSON with STRICT first => STRICT, 1.0, json.loads values; fold and fold_enhanced agree; confidence 1.0 only for STRICT; "
+        "nothing raises; provenance per strategy (LENIENT: the documented coercions applied exactly to the literal in the text; "
+        "REPAIR of a purely syntactic corruption equals the original data); repeats equal the first answer.",
+        "json.loads and pydantic are the trusted reference, for coerced leaves exactly int(literal) / float(literal) / str(number) / "
+        "the documented bool words; provenance search is brute force over JSON objects starting at each '{' (all schemas are object "
+        "schemas); REPAIR provenance is judged only for purely syntactic corruptions of known data; the empty strategy list gets "
+        "only the order-independent clauses; quick uses reduced hazard and literal alphabets",
     ),
     "C13": (
         "explicit-state BFS over waste-handling histories with per-item conservation accounting and a hang-detecting lock (engine "
@@ -220,7 +239,9 @@ REG = {
         "instance under test built second. Public API only; queued identities, clone and locks come from a generic walk over "
         "vars(). Every item has a unique id and is always exactly one of queued / digested / reported error / emergency-dropped / "
         "expired; queue <= max_queue_size; sensitive items never recycled, on_toxic at most once and exactly once if digested; "
-        "every call returns (HangDetected otherwise). Engine C: 49 two-thread harnesses in quick (all unordered pairs of single "
+        "every call returns (a self-deadlock is HangDetected; a library call that never returns is turned into "
+        "call-does-not-return:<function> by the runner's CPU-time watchdog, which guards every check). Engine C: 49 two-thread "
+        "harnesses in quick (all unordered pairs of single "
         "operations from 6 kinds on two configurations at bound 2; 7 curated at bound 1, four also 2); thorough: those at bound 3, "
         "pairs of two-operation programs at bound 1; every line of lysosome.py is a scheduling point, deadlock = detected.",
         "CoopLock has Lock/RLock semantics; harness digesters live in one caller-owned dict and stand in for the built-in ones "
@@ -250,24 +271,28 @@ REG = {
         "judged",
     ),
     "C17": (
-        "bounded-exhaustive enumeration of fingerprints around every baseline bound, Treg rule sets and training windows (engine D) "
-        "+ explicit-state BFS over bare-TCell (to fixpoint), ImmuneSystem and two-agent histories under a virtual clock (engine A)",
-        "D-tcell: TCell.inspect over per-bound positions of 2 (thorough 5) trained profiles x manual flag x streak position x "
-        "anergy. D-treg: all threat level x action responses x 625 rule sets x tolerance records (stability threshold 0/1/3) x "
-        "spellings of the condition answer x rule duration, on fresh objects and through one shared Treg. D-train: every "
-        "observation window of length 2-3 (thorough + multisets of 4) over 32 observations (thorough 48) x canary histories x 5 "
-        "system shapes x Thymus tolerances, then inspect. T: all histories of inspect / flag_manually / reset / "
-        "reset_without_confirmation on a bare TCell (thresholds incl. 0 and 1, with / without a used sibling watcher), to fixpoint. "
-        "A: ImmuneSystem histories to depth 5 (6); X: a second agent, or a same-named agent in a second system, carrying flags / "
-        "streaks / memories, depth 4 (5); key = recursive fingerprint of all instance fields of the watcher. Oracle, "
-        "one-directional, with streak, flag and dismissed false alarms tracked from the call history: CONFIRMED/CRITICAL or "
-        "isolate/shutdown => baseline violated and a second signal; strictly inside => NONE/IGNORE; anergic => NONE/IGNORE; Treg "
-        "never raises an action, lowers by at most one step, leaves CRITICAL unchanged; POSITIVE training => the next inspect is "
-        "NONE.",
-        "finite moderate floats only; values within 1e-9 of a bound take the weaker reading on both sides; a failed canary counts "
-        "as baseline violation and second signal at once; a bare TCell has no immune memory; fingerprint hash collisions, "
-        "ImmuneMemory.prune_old / import_signatures and TCells built with preset counters not explored; A and X are depth-bounded; "
-        "a failing engine or unbuildable root is a deferred harness error, the other engines still report",
+        "bounded-exhaustive enumeration of fingerprints on the float neighbours of every baseline bound, Treg rule sets, training "
+        "windows and profile-derived events (engine D) + explicit-state BFS over bare-TCell (to fixpoint), ImmuneSystem, "
+        "derived-event and two-agent histories under a virtual clock (engine A)",
+        "Alphabets are derived from the trained profile: every quantity is met just below / exactly at / just above (next float) "
+        "its bound. D-tcell: TCell.inspect over per-bound positions of 2 (thorough 5) profiles x manual flag x streak position x "
+        "anergy, plus the fine family (one dimension on the float neighbours of its bound, every subset of dimensions on their "
+        "bounds; 5 profiles incl. point intervals). D-edge: the same through the whole ImmuneSystem - trained window x derived "
+        "observation / canary event x second deviation x flag x streak (19200 cases in quick). D-treg: all threat level x action "
+        "responses x 625 rule sets x tolerance records x answer spellings, on fresh objects and "
+        "through one shared Treg. D-train: every observation window of length 2-3 (thorough + multisets of 4) x canary histories x "
+        "5 system shapes x Thymus tolerances, then inspect. T: all histories of inspect / flag_manually / both resets on a bare "
+        "TCell (thresholds incl. 0 and 1), to fixpoint. A: ImmuneSystem histories to depth 5 (6); E: the same with derived events "
+        "(response-time mean exactly on the bound, canary results up to exactly the minimum), depth 5 (6); X: a second agent or "
+        "second system, depth 4 (5). Oracle, one-directional, streak / flag / dismissed false alarms tracked from the call "
+        "history: CONFIRMED/CRITICAL or isolate/shutdown => baseline violated and a second signal; inside every (closed) bound => "
+        "NONE/IGNORE; anergic => NONE/IGNORE; Treg never raises an action, lowers by at most one step, leaves CRITICAL unchanged; "
+        "POSITIVE training => the next inspect is NONE.",
+        "finite moderate floats only; the baseline is read strictly as documented: closed bounds, a canary fails only strictly "
+        "below the trained minimum, exact float comparisons, the reference never calls BaselineProfile.check; a failed canary "
+        "counts as baseline violation and second signal at once; the marks separating CRITICAL from CONFIRMED are not derived; a "
+        "bare TCell has no immune memory; prune_old / import_signatures not explored; A, E, X are depth-bounded; a failing engine "
+        "is a deferred harness error",
     ),
     "C18": (
         "stateless choice-point search over every generator / worker / summariser / provider / tool answer sequence (engine B), "
@@ -348,21 +373,26 @@ REG = {
         "are not judged",
     ),
     "C15": (
-        "explicit-state BFS over acquire / release / complete / abort / watchdog histories against a wait-for graph recomputed from the "
-        "results of public calls only (engine A)",
-        "Seven plans: 2 operations x 3 resources to depth 7 (pre-deadlocked root 6), 3 x 2 to depth 6, 3 x 3 incl. each-holds-one, "
-        "3-cycle and two-overlapping-cycle prefixes to depth 5; thorough 8 / 7 / 8 / 6 with extra roots. Alphabet: start (restart of a "
-        "finished id), acquire incl. re-entrant and pre-empting, release (also by a non-owner), release_all, complete, abort, "
-        "watchdog.execute for both victim strategies on two long-lived watchdogs; per root a late register(resource) and "
-        "PriorityInheritance check_and_boost / clear_all. Roots vary priorities (ties, a negative one), start instants, the preemptible "
-        "subset, watchdog timeout options and watchdog_exempt. After every transition on the real CellCycleController: "
-        "check_deadlock() is non-None <=> the reference graph has a cycle; reported agents are live and every reported (waiter, "
-        "blocking, resource) is a reference edge; asking twice and stats()['pending_deadlocks'] agree; after watchdog.execute() "
-        "exactly the reported cycle loses its lowest-priority / oldest member, which owns nothing and is no longer active. "
-        "Depth-bounded; no fixpoint claimed.",
+        "explicit-state BFS over acquire / release / complete / abort / watchdog histories - the restart-free preemption families to "
+        "fixpoint - against a wait-for graph recomputed from the results of public calls only (engine A)",
+        "Seven depth-bounded plans: 2 operations x 3 resources to depth 7 (pre-deadlocked root 6), 3 x 2 to depth 6, 3 x 3 incl. "
+        "each-holds-one, 3-cycle and two-overlapping-cycle prefixes to depth 5; thorough 8 / 7 / 8 / 6 with extra roots. Preemption "
+        "family, 3 operations of distinct ages x 2 resources: the restart-free alphabet has a finite state space and is explored to "
+        "a fixpoint (depth 15, 26582 states in quick: histories of any length) for every assignment of 2 priority levels and every "
+        "preemptible subset; thorough adds 3 levels, re-entrant holds, boosts and a one-restart family, each to fixpoint. "
+        "Alphabet: start (restart of a finished id), acquire incl. re-entrant and pre-empting, release (also by a non-owner), "
+        "release_all, complete, abort, watchdog.execute for both victim strategies on two long-lived watchdogs; per root a late "
+        "register(resource) and PriorityInheritance check_and_boost / clear_all. Roots vary priorities (ties, a negative one), start "
+        "instants, preemptible subset, watchdog options. After every transition on the real CellCycleController: check_deadlock() "
+        "is non-None <=> the reference graph has a cycle; reported agents are live and every reported (waiter, blocking, resource) "
+        "is a reference edge; asking twice and stats()['pending_deadlocks'] agree; after watchdog.execute() exactly the reported "
+        "cycle loses its lowest-priority / oldest member, which owns nothing and is no longer active. A violating transition is not "
+        "expanded; where the reported cycle is wrong, watchdog.execute() is judged on copies of that state (no kill without a real "
+        "cycle, victim on a real cycle).",
         "a BLOCKED requester is read as waiting until it obtains the resource or ends, also across release and re-acquisition by a "
         "third operation; after a boost the victim must be minimal under the started or the boosted priority, ties accept any tied "
-        "member; firing watchdog timeouts, advance() and re-registration of an owned resource are outside the alphabet",
+        "member; a fixpoint is claimed for the '...-to-fixpoint' plans only (a watchdog's kill memory abstracted to the set of "
+        "killed ids); firing watchdog timeouts, advance() and re-registration of an owned resource are outside the alphabet",
     ),
     "C19": (
         "stateless choice-point search over every checkpoint / processor / error-handler answer (engine B) x exhaustively "
